@@ -552,7 +552,7 @@ func c16ReadCases(path string) ([]*c16Case, error) {
 
 // c16RunCase executes one case under the given chunkings through the three entry points and
 // returns the mismatches against the expectation carried by the case.
-func c16RunCase(ci int, c *c16Case, chunkings [][]int, rec *c16Recorder, sample bool, relayToo bool) (runs int, mm []c16Mismatch) {
+func c16RunCase(ci int, c *c16Case, chunkings [][]int, rec *c16Recorder, sample bool, relayToo bool, budget *int) (runs int, mm []c16Mismatch) {
 	etyp := string(c16B(c.Etyp))
 	raw := c16B(c.Bytes)
 	wantLine := c16LineWant(c.Want)
@@ -572,7 +572,10 @@ func c16RunCase(ci int, c *c16Case, chunkings [][]int, rec *c16Recorder, sample 
 		if bad {
 			m := c16Mismatch{Case: ci, Via: "recvLine", Chunks: lens, Want: wantLine, Got: got, C: c,
 				Single: c16ExecLine(c.Mode, etyp, c16Split(raw, ones), nreads)}
-			m.ID = rec.record(c, lens, got)
+			if *budget > 0 { // recorded for TLC (bounded); all are counted and listed
+				*budget--
+				m.ID = rec.record(c, lens, got)
+			}
 			mm = append(mm, m)
 		} else if sample && k == 0 {
 			rec.record(c, lens, got)
@@ -592,7 +595,7 @@ func c16RunCase(ci int, c *c16Case, chunkings [][]int, rec *c16Recorder, sample 
 				}
 			}
 		}
-		if len(mm) >= 4 {
+		if len(mm) >= 2 {
 			break
 		}
 	}
@@ -636,6 +639,7 @@ func c16MBT(d *vCtx) error {
 			defer wg.Done()
 			rng := d.rng(int64(1600 + w))
 			lr, ld := 0, 0
+			budget := d.pInt("record_mismatches", 16)
 			var lm []c16Mismatch
 			for ci := w; ci < len(cases); ci += nw {
 				c := cases[ci]
@@ -643,7 +647,7 @@ func c16MBT(d *vCtx) error {
 					ld++
 					continue
 				}
-				n, mm := c16RunCase(ci, c, c16Chunkings(c, allMax, nrand, rng), rec, ci%sampleEvery == 0, c16RelayApplies(c))
+				n, mm := c16RunCase(ci, c, c16Chunkings(c, allMax, nrand, rng), rec, ci%sampleEvery == 0, c16RelayApplies(c), &budget)
 				lr += n
 				lm = append(lm, mm...)
 			}
